@@ -247,6 +247,24 @@ def case_bulk_glue(ctx, nf, nd):
         ctx.check(ctx.eq(dbulk[p], refd), "D-BULK", info="bulk dissipation == sum rate*df*dtheta")
         for a, b in zip(drate[p].flat, Rd[p].flat):
             ctx.check(ctx.eq(a, b), "D-BATCH.rate")
+    # without an explicit roughness length every entry point solves the roughness for the SAME kind of wind input
+    rcalls = []
+
+    def rough(speed, direction, spectrum, roughness_length_guess=None, wind_speed_input_type="u10"):
+        rcalls.append(wind_speed_input_type)
+        return z0
+    gen.roughness = rough
+    for wt in ("friction_velocity", "u10"):
+        for nm, fn in (("rate", gen.rate), ("bulk_rate", gen.bulk_rate)):
+            rcalls.clear()
+            calls.clear()
+            try:
+                fn(s, U, Dr, wind_speed_input_type=wt)
+            except Exception:  # noqa (the stubbed source term is enough for rate/bulk_rate; stress needs more)
+                pass
+            ctx.check(rcalls[:1] == [wt], "D-BATCH.roughness-type",
+                      info=dict(entry=nm, wind_speed_input_type=wt, seen=list(rcalls),
+                                what="roughness is solved for the wind input type that was given"))
     # imbalance
     bal = SourceTermBalance(gen, diss)
     gen.roughness = lambda *a, **k: z0
@@ -284,9 +302,9 @@ def cases(tier):
         cs.append(dict(name=name, fn=f"props.c08:{fn}", kwargs=kw, opts=o))
 
     for nd in ([3, 4] if q else [3, 4, 6]):
-        for wd in (0.0, 100.0, 260.0):
+        for wd in (0.0, 100.0, 260.0, 330.0):
             for wt in ("friction_velocity", "u10"):
-                if q and nd == 4 and wd != 100.0:
+                if q and nd == 4 and wd not in (100.0, 330.0):
                     continue
                 add("case_wind_input", f"wind_nd{nd}_dir{int(wd)}_{wt}", nd=nd, wind_dir=wd, wtype=wt,
                     opts=dict(weight=nd * 10))
